@@ -33,7 +33,7 @@ pub struct C13;
 /// Context literals of scope variant `v`: one to three stacked contexts; upper ones shadow lower ones.
 fn scope_texts(v: u64, layers: u64) -> Vec<String> {
   let base = format!(
-    "{{a: {a}, b: {b}, Order Size: {os}, s: \"{s}\", Customer: \"{c}\", flag: {f}, nothing: null, xs: [{x1}, {x2}, {x3}, {x4}], names: [\"ann\", \"bob{v}\", \"cy\"], people: [{{name: \"ann\", age: {a}}}, {{name: \"bob{v}\", age: {b}}}, {{name: \"cy\", age: 41}}], orders: [{{item: 1, qty: 10}}, {{item: {a}, qty: 20}}, {{item: 3, qty: {b}}}], p: {{name: \"p{v}\", age: {os}, address: {{city: \"c{v}\"}}}}, inc: function(x) x + {a}}}",
+    "{{a: {a}, b: {b}, Order Size: {os}, s: \"{s}\", Customer: \"{c}\", flag: {f}, nothing: null, xs: [{x1}, {x2}, {x3}, {x4}], names: [\"ann\", \"bob{v}\", \"cy\"], people: [{{name: \"ann\", age: {a}}}, {{name: \"bob{v}\", age: {b}}}, {{name: \"cy\", age: 41}}], orders: [{{item: 1, qty: 10}}, {{item: {a}, qty: 20}}, {{item: 3, qty: {b}}}], p: {{name: \"p{v}\", age: {os}, address: {{city: \"c{v}\"}}}}, inc: function(x) x + {a}, r: [{x1}..10], d0: date(\"2021-03-{day}\"), dur: duration(\"P{x1}DT2H\"), nested: [[1, {a}], [3, [4, {b}]], []], long: for i in 1..40 return i * {x1}}}",
     a = 2 + v,
     b = 7 * (v + 1),
     os = 10 + 3 * v,
@@ -44,6 +44,7 @@ fn scope_texts(v: u64, layers: u64) -> Vec<String> {
     x2 = 5,
     x3 = 12 - v as i64,
     x4 = 3 * v,
+    day = 10 + v,
     v = v
   );
   let mut out = vec![base];
@@ -173,6 +174,9 @@ impl<'a> Gen<'a> {
     *self.rng.pick(&["", "", ", \"i\"", ", \"i\"", ", \"s\"", ", \"x\"", ", \"\""])
   }
   fn bif_bool(&mut self, d: u32) -> String {
+    if self.rng.chance(1, 3) {
+      return self.kinds_bool(d);
+    }
     match self.rng.index(8) {
       0 | 1 | 2 => format!("matches({}, \"{}\"{})", self.string(d), self.pattern(), self.flags()),
       3 => format!("matches(input: {}, pattern: \"{}\")", self.string(d), self.pattern()),
@@ -194,6 +198,9 @@ impl<'a> Gen<'a> {
     }
   }
   fn bif_list(&mut self, d: u32) -> String {
+    if self.rng.chance(1, 3) {
+      return self.kinds_list(d);
+    }
     match self.rng.index(12) {
       0 | 1 | 2 => format!("split({}, \"{}\")", self.string(d), self.pattern()),
       3 => format!("index of({}, {})", self.list(d), self.num(d)),
@@ -207,7 +214,43 @@ impl<'a> Gen<'a> {
       _ => format!("concatenate({}, {})", self.list(d), self.list(d)),
     }
   }
+  /// Productions over the value kinds of the scopes that are not numbers, strings or flat lists: a range,
+  /// a date, a duration, nested lists, a list of 40 items.
+  fn kinds_num(&mut self, d: u32) -> String {
+    match self.rng.index(8) {
+      0 => "count(long)".into(),
+      1 => format!("sum(long[item > {}])", 25 + self.rng.below(30)),
+      2 => "d0.day".into(),
+      3 => "dur.hours + dur.days".into(),
+      4 => "nested[2][2][1]".into(),
+      5 => format!("count(for i in r return i + {})", self.num(d)),
+      6 => "count(flatten(nested))".into(),
+      _ => format!("long[{}]", 1 + self.rng.below(45)),
+    }
+  }
+  fn kinds_bool(&mut self, d: u32) -> String {
+    match self.rng.index(5) {
+      0 => format!("({} in r)", self.num(d)),
+      1 => "(d0 < date(\"2021-03-14\"))".into(),
+      2 => "(dur > duration(\"P3D\"))".into(),
+      3 => format!("(some i in long satisfies i = {})", self.num(d)),
+      _ => "(every q in nested satisfies count(q) < 3)".into(),
+    }
+  }
+  fn kinds_list(&mut self, d: u32) -> String {
+    match self.rng.index(6) {
+      0 => format!("long[item > {}]", 30 + self.rng.below(200)),
+      1 => "(for i in r return i * 2)".into(),
+      2 => "flatten(nested)".into(),
+      3 => format!("(for q in nested return count(q) + {})", self.num(d)),
+      4 => "sublist(long, 38)".into(),
+      _ => "[d0 + dur, d0 - duration(\"P1D\"), date(d0.year, 1, 1)]".into(),
+    }
+  }
   fn bif_num(&mut self, d: u32) -> String {
+    if self.rng.chance(1, 3) {
+      return self.kinds_num(d);
+    }
     match self.rng.index(12) {
       0 => format!("min({})", self.list(d)),
       1 => format!("mean({})", self.list(d)),
